@@ -220,6 +220,8 @@ def rexpr(e):
     if k == "new":
         parts = ["%s gleich %s" % (a["p"], rarg(a["e"])) for a in e["args"]]
         return "(ein %s mit %s)" % (e["s"], " und ".join(parts)) if parts else "(ein leerer %s)" % e["s"]
+    if k == "wenn":    # only as the whole right-hand side of a declaration / "x ist ..." / a return
+        return "%s, wenn %s" % ("wahr" if e["val"] else "falsch", rexpr(e["c"]))
     if k == "chain":   # precedence cases: operands and operator names, rendered WITHOUT parentheses
         return rchain(e["items"])
     raise ValueError(k)
@@ -301,6 +303,8 @@ def rstmts(ss, ind):
                 out.append("%s%s %s %s ist %s." % (tab, article(s["t"], right=s.get("art", True)), tname(s["t"]), s["n"], rexpr(s["e"])))
         elif k == "set":
             out.append("%sSpeichere %s in %s." % (tab, rexpr(s["e"]), rlv(s["lv"])))
+        elif k == "setis":
+            out.append("%s%s ist %s." % (tab, rlv(s["lv"]), rexpr(s["e"])))
         elif k == "cset":
             f = {"plus": "Erhöhe %s um %s.", "minus": "Verringere %s um %s.", "mal": "Vervielfache %s um %s.", "durch": "Teile %s durch %s.",
                  "shl": "Verschiebe %s um %s Bit nach links.", "shr": "Verschiebe %s um %s Bit nach rechts."}
@@ -313,14 +317,34 @@ def rstmts(ss, ind):
             e = rexpr(s["e"])
             out.append("%s%s." % (tab, e[1:-1] if s["e"]["k"] == "call" else e))
         elif k == "if":
-            out.append("%sWenn %s, dann:" % (tab, rexpr(s["c"])))
-            out += rstmts(s["then"], ind + 1) or [tab + "\t[leer]"]
-            if s["else"]:
-                out.append("%sSonst:" % tab)
-                out += rstmts(s["else"], ind + 1)
+            cur, first = s, True
+            while True:
+                head = "Wenn" if first else "Wenn aber"
+                if cur.get("oneline") and len(cur["then"]) == 1:
+                    body = rstmts(cur["then"], 0)[0]
+                    out.append("%s%s %s, %s" % (tab, head, rexpr(cur["c"]), body[0].lower() + body[1:]))
+                else:
+                    out.append("%s%s %s, dann:" % (tab, head, rexpr(cur["c"])))
+                    out += rstmts(cur["then"], ind + 1) or [tab + "\t[leer]"]
+                first = False
+                if cur.get("elif") and len(cur["else"]) == 1 and cur["else"][0]["k"] == "if":
+                    cur = cur["else"][0]
+                    continue
+                if cur["else"]:
+                    if cur.get("oneline") and len(cur["else"]) == 1:
+                        body = rstmts(cur["else"], 0)[0]
+                        out.append("%sSonst %s" % (tab, body[0].lower() + body[1:]))
+                    else:
+                        out.append("%sSonst:" % tab)
+                        out += rstmts(cur["else"], ind + 1)
+                break
         elif k == "while":
-            out.append("%sSolange %s, mache:" % (tab, rexpr(s["c"])))
-            out += rstmts(s["body"], ind + 1)
+            if s.get("oneline") and len(s["body"]) == 1:
+                b = rstmts(s["body"], 0)[0]
+                out.append("%sSolange %s, %s" % (tab, rexpr(s["c"]), b[0].lower() + b[1:]))
+            else:
+                out.append("%sSolange %s, mache:" % (tab, rexpr(s["c"])))
+                out += rstmts(s["body"], ind + 1)
         elif k == "dowhile":
             out.append("%sMache:" % tab)
             out += rstmts(s["body"], ind + 1)
@@ -332,19 +356,29 @@ def rstmts(ss, ind):
         elif k == "for":
             tn = "Buchstaben" if s["t"] == TC else tname(s["t"])
             step = "" if s["step"]["k"] == "none" else " mit Schrittgröße %s" % rexpr(s["step"])
-            out.append("%sFür %s %s %s von %s bis %s%s, mache:" % (tab, article(s["t"], "jede", s.get("art", True)), tn, s["v"], rexpr(s["from"]), rexpr(s["to"]), step))
-            out += rstmts(s["body"], ind + 1)
+            head = "%sFür %s %s %s von %s bis %s%s, " % (tab, article(s["t"], "jede", s.get("art", True)), tn, s["v"], rexpr(s["from"]), rexpr(s["to"]), step)
+            if s.get("oneline") and len(s["body"]) == 1:
+                b = rstmts(s["body"], 0)[0]
+                out.append(head + b[0].lower() + b[1:])
+            else:
+                out.append(head + "mache:")
+                out += rstmts(s["body"], ind + 1)
         elif k == "foreach":
             tn = "Buchstaben" if s["t"] == TC else tname(s["t"])
             idx = " mit Index %s" % s["idx"] if s["idx"] else ""
-            out.append("%sFür %s %s %s%s in %s, mache:" % (tab, article(s["t"], "jede", s.get("art", True)), tn, s["v"], idx, rexpr(s["in"])))
-            out += rstmts(s["body"], ind + 1)
+            head = "%sFür %s %s %s%s in %s, " % (tab, article(s["t"], "jede", s.get("art", True)), tn, s["v"], idx, rexpr(s["in"]))
+            if s.get("oneline") and len(s["body"]) == 1:
+                b = rstmts(s["body"], 0)[0]
+                out.append(head + b[0].lower() + b[1:])
+            else:
+                out.append(head + "mache:")
+                out += rstmts(s["body"], ind + 1)
         elif k == "break":
             out.append(tab + "Verlasse die Schleife.")
         elif k == "continue":
             out.append(tab + "Fahre mit der Schleife fort.")
         elif k == "ret":
-            out.append(tab + ("Verlasse die Funktion." if s["e"]["k"] == "none" else "Gib %s zurück." % rexpr(s["e"])))
+            out.append(tab + ("Verlasse die Funktion." if s["e"]["k"] == "none" else ("Gib %s, zurück." if s["e"]["k"] == "wenn" else "Gib %s zurück.") % rexpr(s["e"])))
         elif k == "todo":
             out.append(tab + "...")
         elif k == "block":
